@@ -172,6 +172,49 @@ func RunMux(c *simkit.Ctx) {
 			plans[i] = append(plans[i], &sentMsg{topic: tp, payload: mkPayload(i, k, tp, sz), sender: i})
 		}
 	}
+	// slow consumer (one run in six): before the scheduled workload, A sends more small messages on the hot
+	// topic than B's inbox can hold while B reads nothing; the overflow may be dropped (whole), never kept in
+	// pieces. B then drains the inbox; what the later workload delivers on that topic must still be whole.
+	if t.Chance(1, 6) {
+		nFlood := 1000 + 1 + t.Intn(3)
+		if t.Chance(1, 3) {
+			nFlood = 900 + t.Intn(200)
+		}
+		var flood [][]byte
+		for k := 0; k < nFlood; k++ {
+			pl := mkPayload(90+k%7, k, hot, 24+k%5)
+			flood = append(flood, pl)
+			mcA.Send(hot, pl)
+		}
+		time.Sleep(3 * time.Second)
+		synctest.Wait()
+		got, next := 0, 0
+		inbox := pB.Inbox(hot)
+	drain:
+		for {
+			select {
+			case m := <-inbox:
+				c.Check()
+				got++
+				for next < len(flood) && !bytes.Equal(flood[next], m.Message) {
+					next++
+				}
+				if next == len(flood) {
+					c.ReportFor("C18", "whole-messages", "inbox-message-matches-no-sent-message-slow-consumer",
+						fmt.Sprintf("topic %s: message #%d (%d bytes) read by a slow consumer equals none of the remaining messages sent (in order) on that topic", lib.Topic_name[int32(hot)], got, len(m.Message)))
+					break drain
+				}
+				next++
+			default:
+				break drain
+			}
+		}
+		if got < nFlood {
+			c.Probe("inbox_overflow_dropped_messages")
+		}
+		c.Fault("slow_consumer_inbox_flood")
+		c.Logf("mux: slow consumer: %d sent on %s, %d read", nFlood, lib.Topic_name[int32(hot)], got)
+	}
 	p2p.VerifYield = sc.yield
 	var swg sync.WaitGroup
 	for i := 0; i < nSenders; i++ {
